@@ -18,6 +18,41 @@ CHECKS = {
         note="Trusted: Denote (reviewed against the property text; the whitespace clause is encoded as a relation so only what the property states is demanded), the concretiser, x/net/html, the Go compiler. Language subset as listed in the evidence assumptions; values are fixed strings with markup metacharacters, escaping itself is C01's business.",
         design="DESIGN.md §4 C02",
         modules=["TemplLang", "MCTemplLang", "TemplVocab"], pkgs=["c02", "templang"]),
+    "C06": dict(
+        level="exploration",
+        technique="TLA+ cursor-progress contract (ParseCursor.tla) and position algebra (SourceMapPos.tla) model-checked by TLC; real parser run over corpus, all truncations and seeded structural mutations with loop-top events (verif hook) and recorded ranges validated by TLC trace specs",
+        text="TLC checks that under the per-loop progress contract every parser loop terminates within n+1 tops (negative config: a sub-parser matching without consuming is rejected) and that parse.Input positions follow the Advance algebra. The real parser.ParseString is run over the repository's templates/test data/fuzz seeds, their truncations and token-level mutations (~10^5 inputs quick, ~10^6 thorough) with recover + watchdog (a hang is only reported when goroutine dumps confirm it); loop-top events from the verif hook are validated by TraceParseCursor.tla, error positions and every recorded expression/name range by the harness and TraceRanges.tla.",
+        note="Exploration, not proof: absence of panics is observed on the explored inputs; coverage-guided random bytes are not covered (a different technique). Loops inside the a-h/parse combinator library are not hooked.",
+        design="DESIGN.md §4 C06",
+        modules=["ParseCursor", "MCParseCursor", "SourceMapPos", "SourceMapOps", "TraceParseCursor", "TraceRanges"], pkgs=["c06"]),
+    "C07": dict(
+        level="translation_validation",
+        technique="TLA+ transcription of RangeWriter.write and SourceMap.Add (SourceMap.tla) model-checked by TLC over expression shape grids; lookups recorded from the real parser+generator for TLC-enumerated (slot, shape) templates and all repo templates, validated by a TLC trace spec",
+        text="The Add/write algorithm is model-checked for all shapes in the bounds (SameByte, Consecutive, RoundTrip, EndOfLineMapped, SymbolRangeEncloses; negative configs rejected). For every TLC-enumerated (syntactic slot, multi-line/multi-byte shape) template (25 slots) and every .templ file of the repository the real parser and generator run, every rune-boundary position of every Go expression (and the position past each line end) is looked up both ways and the tuples, with the bytes at both ends, are judged by TraceSourceMap.tla; coverage of every expression of the parse tree is checked.",
+        note="Trusted: the concretiser of (slot, shape) cases, TLC. The full 3x4x4 shape grid is sampled in the binding, model-checked within smaller bounds. UTF-16 conversion of LSP clients is outside the property.",
+        design="DESIGN.md §4 C07",
+        modules=["SourceMapOps", "SourceMap", "MCSourceMap", "SourceMapGen", "MCSourceMapGen", "TraceSourceMap"], pkgs=["c07"]),
+    "C11": dict(
+        level="model_checking",
+        technique="TLA+ step model of ServeHTTPBuffered/Streamed over a ResponseWriter model (Handler.tla) exhaustively model-checked; every terminal state replayed against the real templ.Handler through httptest and a real net/http server",
+        text="The configuration space (status x content type x error-handler behaviour x streaming x component writing k chunks then ok/fail x 3-request sequences over the buffer pool) is small: TLC enumerates it completely, checks AllOrNothing / UntouchedWhileRendering / PooledBuffersAreEmpty / StreamedAsDocumented (4 negative configs rejected), and every terminal state is replayed on the real handler with several chunk-size profiles, through ResponseRecorder and through a real server+client; status, Content-Type and body compared. exhaustive for the stated bounds.",
+        note="Trusted: net/http's ResponseWriter semantics as modelled (first Write implies 200, headers frozen after WriteHeader), the harness components. Streaming mode mismatches are drift (the property is about the buffered handler).",
+        design="DESIGN.md §4 C11",
+        modules=["Handler"], pkgs=["c11"]),
+    "C12": dict(
+        level="model_checking",
+        technique="TLA+ registry model (RenderCtxRegistry.tla) of emitted scripts/classes/once handles per context, model-checked; every transition and simulated long histories replayed on real generated templates and the real runtime, output tokenised and projected to Def/Use/Body",
+        text="TLC explores histories of uses (script component, on* attributes, class expressions in every container form, once handles with block or fixed component, middleware and stylesheet requests) over 2 scripts x 2 classes x 2 handles, one or two contexts in every mode; AtMostOnce, DefBeforeFirstUse, EveryUseHasCallOrName, MiddlewareNeverInlined, ContextsIndependent are step properties (6 negative configs rejected). Every edge of two sub-graphs is replayed from its re-established source state on real generated code in two concretisations (rendered directly, inside a component, inside a child block), plus simulated 40-use histories; the properties are evaluated on the real token stream.",
+        note="Trusted: x/net/html tokenizer, the projection to Def/Use/Body. The full two-context product is model-checked in thorough only. Nonce handling is not covered.",
+        design="DESIGN.md §4 C12",
+        modules=["RenderCtxRegistry", "MCRenderCtxRegistry", "MCRenderCtxRegistrySim"], pkgs=["c12"]),
+    "C13": dict(
+        level="model_checking",
+        technique="TLA+ two-layer model of the children slot (RenderCtxChildren.tla: lexical Ideal vs one mutable slot as coded, one action per component kind) model-checked; every TLC-enumerated call tree compiled from its own templ source with the repository's generator and rendered",
+        text="TLC enumerates all call trees within the bounds over 13 callee kinds (generated components using/ignoring/repeating the slot, Once first/again with block or fixed component, Flush, Join, Raw, Nop, script, JSON script, protocol-following func component) x with/without block, checks ImplEqualsIdeal/NoDoubleRender/NoStaleSlot for the repaired design and rejects the as-coded and no-ClearChildren designs. Each tree is printed as templ source (never assembled from combinators, which would mask leaks), generated, compiled (thousands of templates per run) and rendered; marker placement is compared with Ideal and with the as-coded model; failing trees are attributed to the action that kept the slot.",
+        note="Trusted: the tree concretiser, marker parsing. Which actions are repaired in the code under test is detected from isolating trees; a wrong guess cannot hide a violation (verdicts compare with Ideal; unmatched outputs get *.Unmodelled signatures).",
+        design="DESIGN.md §4 C13",
+        modules=["RenderCtxChildren"], pkgs=["c13"]),
     "C08": dict(
         level="translation_validation",
         technique="TLA+ builder spec of the templ language (TemplLang.tla) enumerated by TLC; every program, in three concrete spellings, is formatted by the real formatter and the real generator's output for original and formatted source is compared",
